@@ -1,20 +1,487 @@
 package main
 
 import (
+	"encoding/json"
+	"flag"
 	"fmt"
 	"os"
+	"path/filepath"
+	"runtime"
+	"sort"
+	"strconv"
+	"strings"
+	"sync"
 	"time"
 )
 
+const verifRoot = "/verif"
+
+type KnownFinding struct {
+	Property   string `json:"property"`
+	Obligation string `json:"obligation"`
+	What       string `json:"what"`
+	Witness    string `json:"witness,omitempty"`
+	Status     string `json:"status"` // open | fixed
+	Commit     string `json:"commit,omitempty"`
+}
+
+type KnownFindings struct {
+	Findings []KnownFinding `json:"findings"`
+}
+
+func loadKnown() KnownFindings {
+	var k KnownFindings
+	b, err := os.ReadFile(filepath.Join(verifRoot, "KNOWN_FINDINGS.json"))
+	if err == nil {
+		json.Unmarshal(b, &k)
+	}
+	return k
+}
+
 func main() {
-	l := NewLoader("/repo")
-	for _, p := range os.Args[1:] {
-		t0 := time.Now()
-		pk, err := l.Load(p)
-		if err != nil {
-			fmt.Println("ERR", p, err)
+	if len(os.Args) < 2 {
+		fmt.Fprintln(os.Stderr, "usage: govc check -property Cnn [-tier quick|thorough] | govc units -property Cnn | govc replay <file>")
+		os.Exit(2)
+	}
+	switch os.Args[1] {
+	case "check":
+		os.Exit(cmdCheck(os.Args[2:]))
+	case "replay":
+		os.Exit(cmdReplay(os.Args[2:]))
+	default:
+		fmt.Fprintln(os.Stderr, "unknown command", os.Args[1])
+		os.Exit(2)
+	}
+}
+
+type checkOpts struct {
+	prop    string
+	tier    string
+	repo    string
+	seed    int
+	verbose bool
+	keep    bool
+	only    string
+	noprobe bool
+}
+
+func cmdCheck(args []string) int {
+	fs := flag.NewFlagSet("check", flag.ExitOnError)
+	var o checkOpts
+	fs.StringVar(&o.prop, "property", "", "property id")
+	fs.StringVar(&o.tier, "tier", "", "quick or thorough")
+	fs.StringVar(&o.repo, "repo", "/repo", "repository root")
+	fs.BoolVar(&o.verbose, "v", false, "print every obligation")
+	fs.BoolVar(&o.keep, "keep", false, "keep the scratch directory")
+	fs.StringVar(&o.only, "only", "", "only units whose name contains this")
+	fs.BoolVar(&o.noprobe, "noprobe", false, "skip probe corpus")
+	fs.Parse(args)
+	if o.tier == "" {
+		o.tier = os.Getenv("VERIF_TIER")
+	}
+	if o.tier != "thorough" {
+		o.tier = "quick"
+	}
+	if s := os.Getenv("VERIF_SEED"); s != "" {
+		o.seed, _ = strconv.Atoi(s)
+	}
+	if o.prop == "" {
+		fmt.Fprintln(os.Stderr, "missing -property")
+		return 2
+	}
+	return runCheck(o)
+}
+
+type obRecord struct {
+	Name   string  `json:"name"`
+	Kind   string  `json:"kind"`
+	Status string  `json:"status"`
+	Solver string  `json:"solver,omitempty"`
+	Secs   float64 `json:"secs"`
+	Pos    string  `json:"pos,omitempty"`
+	Src    string  `json:"src,omitempty"`
+}
+
+func runCheck(o checkOpts) int {
+	t0 := time.Now()
+	id := o.prop
+	fail := func(msg string) int {
+		// an engine error must never look like a pass
+		os.MkdirAll(filepath.Join(verifRoot, "replays"), 0o755)
+		rp := filepath.Join(verifRoot, "replays", id+"-engine-error.json")
+		b, _ := json.MarshalIndent(map[string]any{"property": id, "obligation": "engine", "error": msg}, "", " ")
+		os.WriteFile(rp, b, 0o644)
+		writeEvidence(id, o, t0, nil, nil, nil, []string{msg}, 1, nil, nil)
+		fmt.Printf("ENGINE ERROR: %s\n", msg)
+		fmt.Printf("VIOLATION property=%s replay=%s no-failing-input-found\n", id, rp)
+		return 1
+	}
+	specs, err := LoadSpecs(filepath.Join(verifRoot, "specs"))
+	if err != nil {
+		return fail(err.Error())
+	}
+	ld := NewLoader(o.repo)
+	db, err := LoadContracts(ld, o.repo, filepath.Join(verifRoot, "contracts"))
+	if err != nil {
+		return fail("contracts: " + err.Error())
+	}
+	var units []*Unit
+	var problems []string
+	for _, path := range sortedKeys(db.files) {
+		cf := db.files[path]
+		relevant := false
+		for _, pc := range cf.Funcs {
+			if hasProp(pc.Props, id) {
+				relevant = true
+			}
+			for _, s := range pc.Subs {
+				if hasProp(s.Props, id) {
+					relevant = true
+				}
+			}
+		}
+		for _, ic := range cf.Ifaces {
+			if hasProp(ic.Props, id) {
+				relevant = true
+			}
+			for _, m := range ic.Methods {
+				if hasProp(m.Props, id) {
+					relevant = true
+				}
+			}
+		}
+		for _, im := range cf.Impls {
+			if strings.Contains(im.Opts["props"], id) {
+				relevant = true
+			}
+		}
+		for _, lm := range cf.Lemmas {
+			if hasProp(lm.Props, id) {
+				relevant = true
+			}
+		}
+		if !relevant {
 			continue
 		}
-		fmt.Println("ok", p, len(pk.Files), time.Since(t0))
+		pkg, err := ld.Load(path)
+		if err != nil {
+			return fail("load " + path + ": " + err.Error())
+		}
+		us, ps := unitsOf(ld, db, pkg, cf, id)
+		units = append(units, us...)
+		problems = append(problems, ps...)
 	}
+	// interface contracts of other packages may be needed by callers: load them all
+	for path := range db.files {
+		if _, err := ld.Load(path); err != nil {
+			problems = append(problems, "load "+path+": "+err.Error())
+		}
+	}
+	if o.only != "" {
+		var f []*Unit
+		for _, u := range units {
+			if strings.Contains(u.Name, o.only) {
+				f = append(f, u)
+			}
+		}
+		units = f
+	}
+	if len(units) == 0 {
+		return fail("no verification units for " + id + " (vacuous run)")
+	}
+	// units are independent; the loader is shared read-only after loading
+	results := make([]*UnitResult, len(units))
+	var wg sync.WaitGroup
+	sem := make(chan struct{}, runtime.NumCPU())
+	var mu sync.Mutex
+	_ = mu
+	for i, u := range units {
+		wg.Add(1)
+		sem <- struct{}{}
+		go func(i int, u *Unit) {
+			defer wg.Done()
+			defer func() { <-sem }()
+			results[i] = verifyUnit(ld, db, specs, u)
+		}(i, u)
+	}
+	wg.Wait()
+	var obs []*Oblig
+	assumed := map[string]bool{}
+	perUnit := map[string]int{}
+	for _, r := range results {
+		for _, p := range r.Problems {
+			problems = append(problems, r.Unit+": "+p)
+		}
+		for _, a := range r.Assumed {
+			assumed[a] = true
+		}
+		obs = append(obs, r.Obs...)
+		perUnit[r.Unit] = len(r.Obs)
+	}
+	scratch, err := os.MkdirTemp("", "govc-"+id+"-")
+	if err != nil {
+		return fail(err.Error())
+	}
+	if !o.keep {
+		defer os.RemoveAll(scratch)
+	} else {
+		fmt.Println("scratch:", scratch)
+	}
+	ms := 10000
+	all := false
+	if o.tier == "thorough" {
+		ms = 60000
+		all = true
+	}
+	dischargeAll(obs, scratch, ms, all, runtime.NumCPU()/2+1)
+
+	known := loadKnown()
+	isKnown := func(name string) *KnownFinding {
+		for i := range known.Findings {
+			k := &known.Findings[i]
+			if k.Property == id && k.Obligation == name && k.Status == "open" {
+				return k
+			}
+		}
+		return nil
+	}
+	violations := 0
+	var recs []obRecord
+	solverTime := map[string]float64{}
+	solverCount := map[string]int{}
+	nProof, nProved, nCover, nCovered, nCoverUnknown := 0, 0, 0, 0, 0
+	var failed []*Oblig
+	knownSeen := map[string]bool{}
+	for _, ob := range obs {
+		recs = append(recs, obRecord{ob.Name, ob.Kind, ob.Status, ob.Solver, ob.Secs, ob.Pos, ob.Src})
+		if ob.Solver != "" {
+			solverTime[ob.Solver] += ob.Secs
+			solverCount[ob.Solver]++
+		}
+		if ob.Cover {
+			nCover++
+			switch ob.Status {
+			case "covered":
+				nCovered++
+			case "vacuous":
+				failed = append(failed, ob)
+			default:
+				nCoverUnknown++
+			}
+			continue
+		}
+		nProof++
+		if ob.Status == "proved" {
+			nProved++
+		} else {
+			failed = append(failed, ob)
+		}
+		if o.verbose {
+			fmt.Printf("  %-8s %-70s %s %.2fs\n", ob.Status, ob.Name, ob.Solver, ob.Secs)
+		}
+	}
+	os.MkdirAll(filepath.Join(verifRoot, "replays"), 0o755)
+	var knownLines []string
+	var samples []any
+	reported := map[string]bool{}
+	for _, ob := range failed {
+		if k := isKnown(ob.Name); k != nil {
+			if !knownSeen[ob.Name] {
+				knownSeen[ob.Name] = true
+				knownLines = append(knownLines, fmt.Sprintf("KNOWN-FINDING: property=%s %s: %s", id, ob.Name, k.What))
+			}
+			continue
+		}
+		if reported[ob.Name] {
+			continue
+		}
+		reported[ob.Name] = true
+		violations++
+		rp := reportViolation(id, ob, scratch, o)
+		samples = append(samples, map[string]any{"obligation": ob.Name, "status": ob.Status, "replay": rp})
+	}
+	for _, p := range problems {
+		violations++
+		rp := filepath.Join(verifRoot, "replays", id+"-"+sanitize(firstN(p, 80))+".json")
+		b, _ := json.MarshalIndent(map[string]any{"property": id, "obligation": "model:supported-subset", "problem": p,
+			"meaning": "a construct or contract could not be translated: the function is unverifiable, which is reported as an undischarged obligation"}, "", " ")
+		os.WriteFile(rp, b, 0o644)
+		fmt.Printf("UNVERIFIABLE: %s\n", p)
+		fmt.Printf("VIOLATION property=%s replay=%s no-failing-input-found\n", id, rp)
+	}
+	// vacuity guard: the obligation count must not shrink below the pinned number
+	if exp := expectedObligations(id); exp > 0 && nProof < exp && o.only == "" {
+		violations++
+		rp := filepath.Join(verifRoot, "replays", id+"-obligation-count.json")
+		b, _ := json.MarshalIndent(map[string]any{"property": id, "obligation": "vacuity:obligation-count", "expected_at_least": exp, "generated": nProof}, "", " ")
+		os.WriteFile(rp, b, 0o644)
+		fmt.Printf("VIOLATION property=%s replay=%s no-failing-input-found\n", id, rp)
+	}
+	for _, l := range knownLines {
+		fmt.Println(l)
+	}
+	// evidence
+	if len(samples) == 0 {
+		for i, r := range recs {
+			if i%(len(recs)/6+1) == 0 {
+				samples = append(samples, r)
+			}
+		}
+	}
+	fnList := make([]string, 0, len(perUnit))
+	for u, n := range perUnit {
+		fnList = append(fnList, fmt.Sprintf("%s (%d)", u, n))
+	}
+	sort.Strings(fnList)
+	cov := map[string]any{
+		"obligations":           nProof,
+		"discharged":            nProved,
+		"cover_queries":         nCover,
+		"cover_sat":             nCovered,
+		"cover_undecided":       nCoverUnknown,
+		"functions_under_contract": fnList,
+		"solver_seconds":        solverTime,
+		"solver_wins":           solverCount,
+		"known_findings_hit":    knownLines,
+		"contract_notes":        db.notes,
+		"spec_hashes":           specs.Hashes,
+	}
+	writeEvidence(id, o, t0, cov, samples, recs, sortedKeys(assumed), violations, db, problems)
+	fmt.Printf("%s %s: %d units, %d/%d obligations discharged, %d/%d covers sat (%d undecided), %d known findings, %d violations, %.1fs\n",
+		id, o.tier, len(units), nProved, nProof, nCovered, nCover, nCoverUnknown, len(knownLines), violations, time.Since(t0).Seconds())
+	if violations > 0 {
+		return 1
+	}
+	return 0
+}
+
+func firstN(s string, n int) string {
+	if len(s) > n {
+		return s[:n]
+	}
+	return s
+}
+
+func expectedObligations(id string) int {
+	b, err := os.ReadFile(filepath.Join(verifRoot, "expected_obligations.json"))
+	if err != nil {
+		return 0
+	}
+	m := map[string]int{}
+	json.Unmarshal(b, &m)
+	return m[id]
+}
+
+func reportViolation(id string, ob *Oblig, scratch string, o checkOpts) string {
+	base := filepath.Join(verifRoot, "replays", id+"-"+sanitize(ob.Name))
+	smtFile := base + ".smt2"
+	os.WriteFile(smtFile, []byte(ob.smt(false)), 0o644)
+	model := ""
+	if ob.Status == "failed" {
+		model = getModel(ob, scratch, 99000+len(ob.Name), 10000)
+	}
+	probe := ""
+	suffix := " no-failing-input-found"
+	if !o.noprobe {
+		if out, failedProbe := runProbes(id, ob, o); failedProbe {
+			probe = out
+			suffix = ""
+		} else {
+			probe = out
+		}
+	}
+	rec := map[string]any{
+		"property":   id,
+		"obligation": ob.Name,
+		"kind":       ob.Kind,
+		"status":     ob.Status,
+		"position":   ob.Pos,
+		"clause":     ob.Src,
+		"solver":     ob.Detail,
+		"smt_query":  smtFile,
+		"model":      firstN(model, 20000),
+		"probe":      probe,
+		"meaning":    "the verifier could not discharge this obligation generated from the current source",
+	}
+	if suffix != "" {
+		rec["failing_input"] = "no-failing-input-found"
+	}
+	b, _ := json.MarshalIndent(rec, "", " ")
+	rp := base + ".json"
+	os.WriteFile(rp, b, 0o644)
+	fmt.Printf("FAILED %s [%s] at %s: %s\n", ob.Name, ob.Status, ob.Pos, ob.Src)
+	fmt.Printf("VIOLATION property=%s replay=%s%s\n", id, rp, suffix)
+	return rp
+}
+
+func writeEvidence(id string, o checkOpts, t0 time.Time, cov map[string]any, samples []any, recs []obRecord, assumed []string, violations int, db *ContractDB, problems []string) {
+	os.MkdirAll(filepath.Join(verifRoot, "evidence"), 0o755)
+	level := "proof"
+	if cov == nil {
+		cov = map[string]any{"explanation": "engine error before any obligation was generated"}
+		level = "other"
+	} else {
+		nP, _ := cov["obligations"].(int)
+		nD, _ := cov["discharged"].(int)
+		if nP != nD || nP == 0 {
+			level = "other"
+			cov["explanation"] = fmt.Sprintf("%d of %d obligations discharged; the rest are reported as violations or known findings, so this run is not a complete proof", nD, nP)
+		}
+	}
+	cov["checker_cmd"] = fmt.Sprintf("/verif/bin/govc check -property %s -tier %s", id, o.tier)
+	tb := append([]string{
+		"Go -> symbolic execution translation and VC generation of /verif/engine (exercised by the must-fail corpus, not verified)",
+		"SMT solvers z3 5.1.0, cvc5 1.0.3, z3 4.8.12 (raced; cross-checked in the thorough tier)",
+		"spec functions in /verif/specs mean what their names say",
+		"heap well-formedness: references read from variables and fields are allocated; user-supplied functions do not panic, do not touch the structures under proof and do not retain their arguments",
+	}, assumed...)
+	cov["trusted_base"] = tb
+	if samples == nil {
+		samples = []any{"none"}
+	}
+	cov["samples"] = samples
+	cov["dropped_by_extraction"] = []string{"logging and formatting calls", "panic payloads", "durations (ghost ticks)", "machine integers are mathematical with explicit overflow obligations unless a unit opts out"}
+	if len(problems) > 0 {
+		cov["unverifiable"] = problems
+	}
+	if recs != nil && (o.tier == "thorough" || len(recs) <= 400) {
+		cov["obligation_list"] = recs
+	}
+	ev := map[string]any{
+		"property_id": id,
+		"tier":        o.tier,
+		"seed":        o.seed,
+		"level":       level,
+		"coverage":    cov,
+		"assumptions": tb,
+		"wall_s":      time.Since(t0).Seconds(),
+		"violations":  violations,
+	}
+	b, _ := json.MarshalIndent(ev, "", " ")
+	os.WriteFile(filepath.Join(verifRoot, "evidence", id+".json"), b, 0o644)
+}
+
+func cmdReplay(args []string) int {
+	if len(args) < 1 {
+		fmt.Fprintln(os.Stderr, "usage: govc replay <replay.json>")
+		return 2
+	}
+	b, err := os.ReadFile(args[0])
+	if err != nil {
+		fmt.Fprintln(os.Stderr, err)
+		return 2
+	}
+	var rec map[string]any
+	json.Unmarshal(b, &rec)
+	fmt.Printf("property %v obligation %v\n", rec["property"], rec["obligation"])
+	if q, ok := rec["smt_query"].(string); ok {
+		for _, s := range solvers {
+			r := runSolver(contextBackground(), s, q, 20000)
+			fmt.Printf("  %s: %s (%.2fs)\n", s.Name, r.ans, r.secs)
+		}
+	}
+	if p, ok := rec["probe"].(string); ok && p != "" {
+		fmt.Println(p)
+	}
+	return 0
 }
